@@ -127,9 +127,68 @@ unsafe impl GlobalAlloc for TrapAlloc {
         if in_any_arena(p as usize) {
             return;
         }
+        // quarantine (DESIGN 9.7): while one transition is executed and judged, what the code
+        // under test frees is poisoned and held back, so that a later write through a stale
+        // pointer is found when the poison is checked, and stale reads see 0xDE bytes
+        if l.size() >= 16 {
+            let held = QUAR.try_with(|q| {
+                let q = &mut *q.get();
+                if q.on && q.n < QCAP {
+                    std::ptr::write_bytes(p, 0xDE, l.size());
+                    q.blocks[q.n] = (p as usize, l.size(), l.align());
+                    q.n += 1;
+                    true
+                } else {
+                    false
+                }
+            });
+            if held.unwrap_or(false) {
+                return;
+            }
+        }
         System.dealloc(p, l)
     }
     // realloc: the default (alloc + copy + dealloc) is what is needed here
+}
+
+const QCAP: usize = 48;
+struct Quar {
+    on: bool,
+    n: usize,
+    blocks: [(usize, usize, usize); QCAP],
+}
+thread_local! {
+    static QUAR: std::cell::UnsafeCell<Quar> = const { std::cell::UnsafeCell::new(Quar { on: false, n: 0, blocks: [(0, 0, 0); QCAP] }) };
+}
+
+/// From now on this thread's freed blocks (>= 16 bytes, at most 48 of them) are poisoned
+/// and held back instead of being returned to the system allocator.
+pub fn quarantine_begin() {
+    let _ = quarantine_end();
+    QUAR.with(|q| unsafe { (*q.get()).on = true });
+}
+
+/// Ends the quarantine: every held block must still be all poison. Returns a description
+/// of the first block that was written to after it was freed; frees the blocks.
+pub fn quarantine_end() -> Option<String> {
+    QUAR.with(|q| unsafe {
+        let q = &mut *q.get();
+        q.on = false;
+        let mut bad = None;
+        for i in 0..q.n {
+            let (p, size, align) = q.blocks[i];
+            let bytes = std::slice::from_raw_parts(p as *const u8, size);
+            if bad.is_none() {
+                if let Some(off) = bytes.iter().position(|b| *b != 0xDE) {
+                    let end = bytes.iter().rposition(|b| *b != 0xDE).unwrap();
+                    bad = Some((size, off, end + 1 - off));
+                }
+            }
+            System.dealloc(p as *mut u8, Layout::from_size_align_unchecked(size, align));
+        }
+        q.n = 0;
+        bad.map(|(size, off, len)| format!("a block of {size} bytes that the operation had freed was written to afterwards ({len} byte(s) at offset {off})"))
+    })
 }
 
 /// Number of allocations made by this thread so far.
